@@ -27,6 +27,20 @@ def operand(rng, ints, kmax=3):
 def stmt(rng, ints, bools, profile="full", lhs=None):
     """a random CrabIR statement; lhs = integer variables that may be written (default: all)"""
     W = lhs if lhs is not None else ints
+    if profile == "c17":
+        # statements that change magnitudes by at most a constant (no var+var, no multiplication): executions
+        # of bounded length cannot leave the universe (needed by spec/Transform.tla, spec/NonInterf.tla)
+        k = rng.choice(["assign"] * 5 + ["arith"] * 3 + ["assume"] * 3 + ["havoc", "select"])
+        unit = lambda: {"k": rng.randint(-2, 2), "t": ([[rng.choice([-1, 1]), rng.choice(ints)]] if rng.random() < 0.75 else [])}
+        if k == "assign":
+            return {"op": "assign", "x": rng.choice(W), "e": unit()}
+        if k == "arith":
+            return {"op": "arith", "f": rng.choice(["add", "sub"]), "x": rng.choice(W), "y": rng.choice(ints), "zk": 1, "z": rng.randint(-2, 2)}
+        if k == "assume":
+            return {"op": "assume", "c": cst(rng, ints)}
+        if k == "havoc":
+            return {"op": "havoc", "x": rng.choice(W)}
+        return {"op": "select", "x": rng.choice(W), "c": cst(rng, ints), "e1": unit(), "e2": unit()}
     kinds = ["assign"] * 4 + ["arith"] * 4 + ["assume"] * 5 + ["havoc", "select"]
     if profile != "linear":
         kinds += ["bitw"] * 2
